@@ -623,17 +623,28 @@ def count_closures(text):
 def name_return(sig, ret_name):
     """`-> T` becomes `-> (r: T)`; a `where` clause stays after it"""
     toks = lex(sig)
-    # find top-level '->' after the parameter list
-    depth = 0
+    # locate the parameter list: first '(' after `fn NAME` that is outside the generic parameter list
+    k = 0
+    while k < len(toks) and not (toks[k].kind == 'ident' and toks[k].text == 'fn'):
+        k += 1
+    k = _next_code(toks, _next_code(toks, k))      # token after the name
+    if k < len(toks) and toks[k].text == '<':
+        depth = 0
+        while k < len(toks):
+            t = toks[k]
+            if t.kind == 'punct':
+                if t.text == '<': depth += 1
+                elif t.text == '>' and toks[k - 1].text != '-':
+                    depth -= 1
+                    if depth == 0: break
+            k += 1
+        k = _next_code(toks, k)
     arrow = None
-    for k, t in enumerate(toks):
-        if t.kind == 'punct':
-            if t.text in '([': depth += 1
-            elif t.text in ')]': depth -= 1
-            elif t.text == '-' and depth == 0 and k + 1 < len(toks) and toks[k + 1].text == '>' and arrow is None:
-                # make sure this is after the closing paren of params: depth==0 and some ')' seen
-                if any(x.text == ')' for x in toks[:k]):
-                    arrow = k
+    if k < len(toks) and toks[k].text == '(':
+        close = match_close(toks, k)
+        j = _next_code(toks, close)
+        if j + 1 < len(toks) and toks[j].text == '-' and toks[j + 1].text == '>':
+            arrow = j
     if arrow is None:
         return sig
     # return type ends at top-level `where` or end
